@@ -435,6 +435,23 @@ breaking('W1-seed-C02-r8m2', {'C02': 'W1'}, patch='/verif/selftest/patches/seed_
 breaking('FW1-seed-C02-r8m3', {'C02': 'FW1'}, patch='/verif/selftest/patches/seed_C02_r8m3.diff')
 breaking('CJ1-seed-C14-r8m1', {'C14': 'CJ1'}, patch='/verif/selftest/patches/seed_C14_r8m1.diff')
 breaking('MR3-seed-C14-r8m2', {'C14': 'MR3'}, patch='/verif/selftest/patches/seed_C14_r8m2.diff')
+breaking('W8-seed-C01-r9m2', {'C02': 'W8'}, patch='/verif/selftest/patches/seed_C01_r9m2.diff')
+breaking('DT1-seed-C01-r9m3', {'C01': 'DT1', 'C02': 'DT1'}, patch='/verif/selftest/patches/seed_C01_r9m3.diff')
+breaking('A13-seed-C04-r9m1', {'C04': 'A13'}, patch='/verif/selftest/patches/seed_C04_r9m1.diff')
+breaking('SV1-seed-C06-r9m3', {'C05': 'SV1'}, patch='/verif/selftest/patches/seed_C06_r9m3.diff')
+breaking('U1-seed-C07-r9m2', {'C07': 'U1', 'C03': 'U1'}, patch='/verif/selftest/patches/seed_C07_r9m2.diff')
+breaking('H7B-seed-C07-r9m3', {'C07': 'H7B', 'C03': 'H7B'}, patch='/verif/selftest/patches/seed_C07_r9m3.diff')
+breaking('MC3-seed-C09-r9m3', {'C09': 'MC3'}, patch='/verif/selftest/patches/seed_C09_r9m3.diff')
+breaking('OUT2-seed-C10-r9m2', {'C10': 'OUT2'}, patch='/verif/selftest/patches/seed_C10_r9m2.diff')
+breaking('S2-seed-C10-r9m3', {'C10': 'S2'}, patch='/verif/selftest/patches/seed_C10_r9m3.diff')
+breaking('M3-seed-C11-r9m1', {'C11': 'M3'}, patch='/verif/selftest/patches/seed_C11_r9m1.diff')
+breaking('M4-seed-C11-r9m2', {'C11': 'M4'}, patch='/verif/selftest/patches/seed_C11_r9m2.diff')
+breaking('M3-seed-C11-r9m3', {'C11': 'M3'}, patch='/verif/selftest/patches/seed_C11_r9m3.diff')
+breaking('BT1-seed-C16-r9m1', {'C16': 'BT1'}, patch='/verif/selftest/patches/seed_C16_r9m1.diff')
+breaking('RK1-seed-C16-r9m2', {'C16': 'RK1'}, patch='/verif/selftest/patches/seed_C16_r9m2.diff')
+breaking('Q4-seed-C19-r9m1', {'C19': 'Q4'}, patch='/verif/selftest/patches/seed_C19_r9m1.diff')
+breaking('Q4-seed-C19-r9m2', {'C19': 'Q4'}, patch='/verif/selftest/patches/seed_C19_r9m2.diff')
+breaking('A2-seed-C19-r9m3', {'C19': 'A2', 'C04': 'A2'}, patch='/verif/selftest/patches/seed_C19_r9m3.diff')
 breaking('GI1-seed-C11-r7m1', {'C11': 'GI1'}, patch='/verif/selftest/patches/seed_C11_r7m1.diff')
 preserving('GI1-ok-indexed-by-position', ['C11'], edit=[('python/numqi/sim/_torch_utils.py', "                else: #custom measure\n                    info = dict(kind=kind, name=name, index=index, gate=gate)",
             "                else: #custom measure\n                    info = dict(kind=kind, name=name, index=index, gate=gate_index_list[ind0][0])")])
@@ -467,6 +484,11 @@ preserving('UV1-ok-merely-unused-name', ['C12'], edit=[('python/numqi/channel/_i
 preserving('CJ1-ok-vdot', ['C14'], edit=[('python/numqi/group/_internal.py',
            "    if (np.linalg.norm(np.trace(np0, axis1=1, axis2=2))**2/np0.shape[0])<1.5: #character theory",
            "    character = np.trace(np0, axis1=1, axis2=2)\n    if (np.vdot(character, character).real/np0.shape[0])<1.5: #character theory")])
+preserving('BT1-ok-two-dimensional-guard', ['C16'], edit=[('python/numqi/gellmann.py',
+           "    ret = matrix_to_gellmann_basis(dm).real\n    if not with_rho0:",
+           "    if dm.ndim==2:\n        dm = (dm + dm.T.conj())/2\n    ret = matrix_to_gellmann_basis(dm).real\n    if not with_rho0:")])
+preserving('OUT2-ok-conjugated-outer', ['C10'], edit=[('python/numqi/random/_internal.py',
+           "def rand_density_matrix(", "def _rank_one_projector(dim, seed=None):\n    tmp0 = rand_haar_state(dim, seed=seed)\n    return np.outer(tmp0, tmp0.conj())\n\n\ndef rand_density_matrix(")])
 breaking('refix-get_gme_2qubit', {'C13': 'F2', 'C05': 'F2'}, patch_reverse='fix_78cd862.diff')
 
 # ---- behaviour-preserving edits for the second half of the round-3 rules
